@@ -85,6 +85,7 @@ type kase struct {
 	Pre    int      `json:"pre,omitempty"`   // precompile number
 	Stack  []string `json:"stack,omitempty"` // probe: operand stack bottom first (hex)
 	MemLen uint64   `json:"memlen,omitempty"`
+	Bound  uint64   `json:"bound,omitempty"` // loop programs: iterations the gas limit can pay for
 }
 
 type obs struct {
@@ -104,10 +105,12 @@ type obs struct {
 	MemSize uint64 `json:"mem_size,omitempty"`
 	DynGas  uint64 `json:"dyn_gas,omitempty"`
 	Status  string `json:"status,omitempty"`
+	// loop horizon
+	Cancelled bool `json:"cancelled,omitempty"`
 }
 
 func (o obs) key() string {
-	return fmt.Sprintf("%v|%s|%s|%d|%x|%d|%s|%s|%d|%d|%s", o.Panicked, o.Site, o.Kind, o.GasLeft, o.Ret, o.NLogs, o.Root0, o.Root1, o.MemSize, o.DynGas, o.Status)
+	return fmt.Sprintf("%v|%s|%s|%d|%x|%d|%s|%s|%d|%d|%s", o.Panicked, o.Site, o.Kind, o.GasLeft, o.Ret, o.NLogs, o.Root0, o.Root1, o.MemSize, o.DynGas, o.Status) + fmt.Sprint(o.Cancelled)
 }
 
 func errKind(err error) string {
@@ -227,9 +230,8 @@ func rootAfterNonceBump(k *kase) string {
 	return r
 }
 
-func execute(k *kase) obs {
+func execute(k *kase) (o obs) {
 	setFork(k.Fork)
-	var o obs
 	switch k.Entry {
 	case "precompile":
 		var pa common.Address
@@ -267,6 +269,12 @@ func execute(k *kase) obs {
 		root0Cache[rk] = o.Root0
 	}
 	evm := node.NewEVM(st, origin, forkHeight(k.Fork), k.Gas)
+	if k.Expect == "loop-bound" {
+		// safety horizon only: the loop program counts its own iterations and leaves by itself when it
+		// exceeds what the gas limit can pay for; EVM.Cancel stops an interpreter that would still spin
+		t := time.AfterFunc(90*time.Second, evm.Cancel)
+		defer func() { t.Stop(); o.Cancelled = evm.Cancelled() }()
+	}
 	var (
 		ret  []byte
 		left uint64
@@ -543,6 +551,14 @@ func judge(k *kase, o obs) []finding {
 			if res.Sign() == 0 && b1.Cmp(b2) != 0 {
 				add("C11:fail-state-not-reverted:CREATE-opcode", fmt.Sprintf("CREATE returned 0 (failed) but the creator's balance went from %s to %s: the failed frame's value transfer was not reverted (%s)", b1, b2, k.Note))
 			}
+		}
+	case "loop-bound":
+		if o.Cancelled {
+			add("C11:loop-not-bounded-by-gas:"+opName(k.Fork, k.Op), fmt.Sprintf("the loop JUMPDEST %s POP ... JUMP was still running after the safety horizon with gas limit %d", k.Note, k.Gas))
+		} else if !failed && len(o.Ret) == 32 {
+			n, _ := u64At(o.Ret, 0)
+			add("C11:loop-not-bounded-by-gas:"+opName(k.Fork, k.Op), fmt.Sprintf("the loop JUMPDEST %s POP ... JUMP ran %d iterations with gas limit %d although the constant gas of one iteration allows at most %d (gas left %d): execution is not bounded by the gas supplied",
+				k.Note, n, k.Gas, k.Bound, o.GasLeft))
 		}
 	case "depth-logs":
 		if o.NLogs > 1025 {
@@ -826,6 +842,7 @@ func main() {
 			"plus AUTH with a valid signature followed by every AUTHCALL tuple (3 values quick, 5 values thorough); " +
 			"(stack) for every operation with net stack growth the two stack heights around the 1024 limit, and 1023/1024/1025 pushes; " +
 			"(depth) self-recursive CALL/CALLCODE/DELEGATECALL/STATICCALL/AUTHCALL/CREATE/CREATE2 x gas {1e7,9e8,1e14,1e16} x {Call,StaticCall}, depth read back from return data / log count; " +
+			"(value) CALL/CALLCODE/AUTHCALL (plain and authorized)/CREATE/CREATE2 with the value operand over {0,1,2^255-1,2^255,2^256-1} x gas {0,max} x target {0, precompile 1, funded account} x in/out size {0,32} on both tables, each as the sandwich (memory empty/32B) and as a self-counting loop JUMPDEST <args> OP POP .. JUMP that must run out of gas before it exceeds gasLimit/(constant gas of one iteration) iterations; " +
 			"(create) every init code of length <=2 through Create (gas set), CREATE and CREATE2 (sandwich), code-deposit programs for every gas limit in a dense range through Create and through CREATE with an endowment; " +
 			"(pre) each of the 18 precompiles x every input of length <=2 x gas set, modexp length-field triples over a 15-value set x 5 payloads, blake2f rounds/flag/length, 33 boundary lengths x 3 fillings, and CALL/STATICCALL/DELEGATECALL to each precompile with boundary in/out sizes; " +
 			"(gasfn) memorySize+dynamicGas of every memory-touching operation evaluated through a hook without allocating: every (offset,length) pair over a 17-value set up to 2^256-1 x other operands {0,1,max} x memory {0,32B}, and a 2^25-byte grid of offsets/lengths up to 2^37 with bisection at every decrease, the cheapest huge growth found is executed in a sandboxed child process. " +
@@ -893,6 +910,7 @@ func run(c *fw.Ctx) {
 		{"gasfn", r.partGasFn},
 		{"stack", r.partStack},
 		{"depth", r.partDepth},
+		{"value", r.partValue},
 		{"create", r.partCreate},
 		{"pre", r.partPrecompiles},
 		{"code", r.partCode},
@@ -1199,6 +1217,127 @@ func (r *runner) authorizedAuthCall(f string) {
 // ---------------------------------------------------------------------------------------
 // part stack: the 1024 limit
 // ---------------------------------------------------------------------------------------
+
+// ---------------------------------------------------------------------------------------
+// part value: value / endowment operand of CALL, CALLCODE, AUTHCALL, CREATE, CREATE2 over
+// {0, 1, 2^255-1, 2^255, 2^256-1} on both tables, as a sandwich and as a loop
+// ---------------------------------------------------------------------------------------
+
+func valueSet() []*big.Int {
+	return []*big.Int{big.NewInt(0), big.NewInt(1), new(big.Int).Sub(pow2(255), big.NewInt(1)), pow2(255), new(big.Int).Set(max256)}
+}
+
+// valueArgs enumerates operand tuples (args[0] = top) of a value-carrying operation: the
+// value over valueSet, the other operands over a tiny set.
+func valueArgs(op vm.OpCode, f func(args []*big.Int, value *big.Int)) {
+	zero, thirtyTwo := big.NewInt(0), big.NewInt(32)
+	addrs := []*big.Int{big.NewInt(0), big.NewInt(1), new(big.Int).SetBytes(minerX.Bytes())}
+	gases := []*big.Int{big.NewInt(0), new(big.Int).Set(max256)}
+	sizes := []*big.Int{zero, thirtyTwo}
+	for _, v := range valueSet() {
+		switch op {
+		case vm.CREATE:
+			for _, sz := range sizes {
+				f([]*big.Int{v, zero, sz}, v)
+			}
+		case vm.CREATE2:
+			for _, sz := range sizes {
+				f([]*big.Int{v, zero, sz, big.NewInt(9)}, v)
+			}
+		default:
+			for _, g := range gases {
+				for _, a := range addrs {
+					for _, in := range sizes {
+						for _, out := range sizes {
+							if op == vm.AUTHCALL {
+								// authorizedNonce gas addr value valueExt argsOffset argsLength retOffset retLength
+								f([]*big.Int{zero, g, a, v, zero, zero, in, zero, out}, v)
+							} else {
+								// gas addr value inOffset inSize retOffset retSize
+								f([]*big.Int{g, a, v, zero, in, zero, out}, v)
+							}
+						}
+					}
+				}
+			}
+		}
+	}
+}
+
+// loopProgram: [prefix] L: JUMPDEST <args> OP POP; n = ++mem[0x40]; if bound < n return n; goto L
+func loopProgram(f string, oi vm.VerifOpInfo, args []*big.Int, prefix []byte, gas uint64) ([]byte, uint64) {
+	// constant gas of one iteration (a lower bound of its net cost: the value surcharge exceeds the stipend)
+	t := opInfo[f]
+	cmin := t[vm.JUMPDEST].ConstGas + uint64(len(args))*t[vm.PUSH1].ConstGas + oi.ConstGas + t[vm.POP].ConstGas +
+		3*t[vm.PUSH1].ConstGas + t[vm.MLOAD].ConstGas + t[vm.ADD].ConstGas + t[vm.DUP1].ConstGas + t[vm.MSTORE].ConstGas +
+		3*t[vm.PUSH2].ConstGas + t[vm.LT].ConstGas + t[vm.JUMPI].ConstGas + t[vm.JUMP].ConstGas
+	bound := gas/cmin + 2
+	if bound > 60000 {
+		panic("harness: loop bound does not fit PUSH2")
+	}
+	p := asm.New().Raw(prefix...)
+	base := p.Len()
+	// labels are absolute: assemble the loop after the prefix by hand
+	p.Op(vm.JUMPDEST)
+	for i := len(args) - 1; i >= 0; i-- {
+		p.Push(args[i])
+	}
+	p.Op(oi.Op).Op(vm.POP)
+	p.Push(0x40).Op(vm.MLOAD).Push(1).Op(vm.ADD).Op(vm.DUP1).Push(0x40).Op(vm.MSTORE)
+	p.PushN(2, []byte{byte(bound >> 8), byte(bound)}).Op(vm.LT) // bound < n
+	p.PushLabel("exit").Op(vm.JUMPI)
+	p.PushN(2, []byte{byte(base >> 8), byte(base)}).Op(vm.JUMP)
+	p.Label("exit")
+	p.Push(32).Push(0x40).Op(vm.RETURN)
+	return p.Bytes(), bound
+}
+
+func (r *runner) partValue() {
+	for _, f := range []string{forkA, forkB} {
+		authPfx, _ := authPrefix(f)
+		authPfx = append(append([]byte{}, authPfx...), byte(vm.POP))
+		for _, op := range []vm.OpCode{vm.CALL, vm.CALLCODE, vm.AUTHCALL, vm.CREATE, vm.CREATE2} {
+			oi, ok := opInfo[f][op]
+			if !ok {
+				continue
+			}
+			prefixes := [][]byte{nil}
+			if op == vm.AUTHCALL {
+				prefixes = [][]byte{nil, authPfx}
+			}
+			for pi, pfx := range prefixes {
+				valueArgs(op, func(args []*big.Int, v *big.Int) {
+					if !r.mine() {
+						return
+					}
+					tag := ""
+					if pi == 1 {
+						tag = "authorized "
+					}
+					for _, mem32 := range []bool{false, true} {
+						code := sandwich(oi, args, mem32, pfx)
+						r.run(&kase{Part: "value", Fork: f, Entry: "call", Bal: true, Code: hx(code), Gas: 10000000, Expect: "sandwich-value",
+							Op: int(op), NArgs: len(args), Note: tag + argsNote(oi.Name, args, mem32)})
+						r.nontriv++
+					}
+					gas := uint64(1000000)
+					if f == forkA {
+						gas = 10000000
+					}
+					code, bound := loopProgram(f, oi, args, pfx, gas)
+					r.run(&kase{Part: "value", Fork: f, Entry: "call", Bal: true, Code: hx(code), Gas: gas, Expect: "loop-bound", Bound: bound,
+						Op: int(op), Note: tag + argsNote(oi.Name, args, false)})
+					r.nontriv++
+				})
+			}
+		}
+	}
+	oi := opInfo[forkB][vm.CALLCODE]
+	args := []*big.Int{big.NewInt(0), big.NewInt(0), pow2(255), big.NewInt(0), big.NewInt(0), big.NewInt(0), big.NewInt(0)}
+	code, bound := loopProgram(forkB, oi, args, nil, 1000000)
+	r.sample(kase{Part: "value", Fork: forkB, Entry: "call", Bal: true, Code: hx(code), Gas: 1000000, Expect: "loop-bound", Bound: bound,
+		Op: int(vm.CALLCODE), Note: argsNote(oi.Name, args, false)})
+}
 
 func (r *runner) partStack() {
 	for _, f := range []string{forkA, forkB} {
